@@ -11,6 +11,7 @@ import (
 	"reflect"
 	"sort"
 	"strings"
+	"sync"
 
 	"github.com/oauth2-proxy/oauth2-proxy/v7/verifx/sched"
 )
@@ -201,4 +202,62 @@ func safe(v reflect.Value) any {
 		return safe(v.Elem())
 	}
 	return v.Kind().String()
+}
+
+// Go is what overlaygen makes of a `go` statement in the packages it rewrites: under a live
+// scheduler, started from a controlled thread, the new goroutine becomes a controlled thread of
+// its own (sched.Spawn) whose steps are interleaved with everybody else's by the explorer;
+// otherwise it is a plain goroutine. (Without this a goroutine started by the code under test
+// inherits the identity of its parent and runs beside it, outside the explorer's control.)
+func Go(pos string, f func()) {
+	if sched.Spawn("go@"+pos, f) {
+		return
+	}
+	go f()
+}
+
+// Sel stands before a `select` without default (or a plain channel receive) whose channels are
+// all simple expressions: a controlled thread waits in the scheduler, as a blocked thread, until
+// one of the channels has something buffered or has been marked closed — the real select that
+// follows then returns at once. Channels fed by uncontrolled goroutines must be buffered for this
+// to see them (the fake fsnotify watcher's are, under the scheduler). Anything that is not a
+// channel is ignored.
+func Sel(pos string, chans ...any) {
+	if sched.Active() == nil || !sched.Controlled() {
+		return
+	}
+	var vs []reflect.Value
+	for _, c := range chans {
+		v := reflect.ValueOf(c)
+		if v.Kind() == reflect.Chan && !v.IsNil() {
+			vs = append(vs, v)
+		}
+	}
+	ready := func() bool {
+		for _, v := range vs {
+			if v.Len() > 0 {
+				return true
+			}
+			if _, ok := closedChans.Load(v.Pointer()); ok {
+				return true
+			}
+		}
+		return false
+	}
+	if ready() {
+		sched.Point("recv@" + pos)
+		return
+	}
+	sched.Block("recv@"+pos, ready)
+}
+
+var closedChans sync.Map
+
+// MarkClosed tells Sel that a channel has been closed (harness-owned channels such as the
+// watcher's done channel).
+func MarkClosed(ch any) {
+	v := reflect.ValueOf(ch)
+	if v.Kind() == reflect.Chan && !v.IsNil() {
+		closedChans.Store(v.Pointer(), true)
+	}
 }
